@@ -298,6 +298,30 @@ func init() {
 		}
 		return L(out...)
 	})
+	// two signer OBJECTS sharing one integrity block, used in an interleaved order (each attempt names its signer)
+	regOp("ib_sign_shared", func(a []Sx) Sx {
+		blk := &ib.IntegrityBlock{Magic: ib.IntegrityBlockMagic, Version: ib.VersionB1, SignatureStack: stackOf(a[1].L)}
+		signers := []*ib.IntegrityBlockSigner{{WebBundleHash: a[0].B, IntegrityBlock: blk}, {WebBundleHash: a[0].B, IntegrityBlock: blk}}
+		out := []Sx{}
+		for _, at := range a[2].L {
+			s := signers[at.L[6].Int()%2]
+			var st tableStrategy
+			if at.L[4].K == 1 && len(at.L[4].B) == ed25519.SeedSize {
+				st.priv = ed25519.NewKeyFromSeed(at.L[4].B)
+				st.pub = st.priv.Public().(ed25519.PublicKey)
+			}
+			if at.L[5].K == 1 && len(at.L[5].B) > 0 {
+				st.pad = at.L[5].B
+			}
+			s.SigningStrategy = st
+			tag := "ok"
+			if err := s.SignAndAddNewSignature(ed25519.PublicKey(at.L[0].B), attrsOf(at.L[1])); err != nil {
+				tag = "err"
+			}
+			out = append(out, L(Sym(tag), stackSx(blk.SignatureStack)))
+		}
+		return L(out...)
+	})
 	// CanSignForURL against the standard library's own hostname matching
 	regOp("bsig_can_sign", func(a []Sx) Sx {
 		chain := certurl.CertChain{}
